@@ -448,8 +448,9 @@ func dumpOne(bin, dir string, data []byte, expand, strs [][]int, how string, ord
 	es, perr := parseDump(stdout.String())
 	e.Entries = es
 	if perr != "" {
-		if e.Exit == 0 && strings.HasPrefix(perr, "length line says") {
-			// the tool's own length line and the value printed under it disagree: that is about the tool, not about this parser; the
+		if e.Exit == 0 && (strings.HasPrefix(perr, "length line says") || strings.HasPrefix(perr, "bad byte list")) {
+			// the tool's own length line and the value printed under it disagree, or an item of a byte list is not 0xNN: that is about
+			// the tool, not about this parser; the
 			// entries read so far plus a marker entry are judged (and cannot be explained)
 			e.Entries = append(e.Entries, entry{Ind: 0, Fn: -1, Wt: 2, Kind: "bytes", Val: []int{}})
 			e.Note = "output: " + perr
@@ -571,6 +572,28 @@ func famDump(bin string, iters int) {
 	hows := []string{"file", "stdin", "pipe"}
 	// structured cases (always): deep chains with sibling length-delimited fields that differ in -strings / -expand membership,
 	// and malformed payloads inside an expanded (or not expanded) nested message
+	// sibling roots with equal tails: a path of two or three elements names ONE of them
+	{
+		inner := []node{{fn: 3, wt: 2, kids: []node{{fn: 1, wt: 0, v: 7}}}, {fn: 4, wt: 2, str: true, b: []byte("text")}}
+		for ri, roots := range [][2]int{{1, 2}, {4, 9}, {15, 16}} {
+			a, b := roots[0], roots[1]
+			data := encodeNodes([]node{{fn: a, wt: 2, kids: inner}, {fn: b, wt: 2, kids: inner}})
+			dumpOne(bin, dir, data, [][]int{{a}, {b}, {a, 3}}, [][]int{{a, 4}}, hows[ri%3])
+			dumpOne(bin, dir, data, [][]int{{a}, {b}, {b, 3}}, [][]int{{b, 4}}, hows[(ri+1)%3])
+			dumpOne(bin, dir, data, [][]int{{a}, {b}}, [][]int{{a, 4}}, hows[(ri+2)%3])
+			deep := encodeNodes([]node{{fn: a, wt: 2, kids: []node{{fn: 5, wt: 2, kids: inner}}}, {fn: b, wt: 2, kids: []node{{fn: 5, wt: 2, kids: inner}}}})
+			dumpOne(bin, dir, deep, [][]int{{a}, {b}, {a, 5}, {b, 5}, {a, 5, 3}}, [][]int{{b, 5, 4}}, hows[ri%3])
+			dumpOne(bin, dir, deep, [][]int{{a}, {b}, {a, 5}, {b, 5}, {b, 5, 3}}, [][]int{{a, 5, 4}}, hows[(ri+1)%3])
+		}
+		// payloads printed as byte lists at the lengths where a formatter's buffer may wrap
+		for _, n := range []int{50, 51, 52, 53, 102, 103, 104, 255, 256, 257, 1000} {
+			p := make([]byte, n)
+			for i := range p {
+				p[i] = byte(0xa0 + i%0x5f)
+			}
+			dumpOne(bin, dir, encodeNodes([]node{{fn: 1, wt: 2, b: p}, {fn: 2, wt: 0, v: 1}}), nil, nil, hows[n%3])
+		}
+	}
 	for depth := 1; depth <= 8; depth++ {
 		leaf := []node{{fn: 1, wt: 2, str: true, b: []byte("ab")}, {fn: 2, wt: 2, str: true, b: []byte("cd")},
 			{fn: 3, wt: 2, kids: []node{{fn: 1, wt: 0, v: 7}}}, {fn: 4, wt: 2, kids: []node{{fn: 2, wt: 2, str: true, b: []byte("x")}}}}
